@@ -479,7 +479,7 @@ func c18Census(res *engine.Result, known func(*engine.Violation) (string, bool))
 func newC18Stats() *c18Stats { return &c18Stats{sites: map[string]int{}} }
 
 func init() {
-	register(&Check{ID: "C18", Level: "model_checking",
+	register(&Check{ID: "C18", Level: "model_checking", FreshProcessReplay: true,
 		Run: func(rc *engine.RunCtx) *engine.Result {
 			res := engine.NewResult()
 			c18Census(res, rc.Known.Matcher(rc.Property))
